@@ -3,10 +3,12 @@
    in the empty directory.
 
    - foreign name: the family test of the model rejects it (TsForeignFacts.tsd_member c n = false): the listing extracts no
-     infix from it, or an infix that neither the time-stamp filter (r%Y-%m-%d_%H-%M-%S as chrono parses it) nor the number
-     filter ("r", a digit, one more byte - the filter of latest_timestamp_file) accepts - as a plain file, as an archive,
-     and with ".gz" removed.  Examples: a_rXYZ.log, a_r1.log, a_rCURRENT.log, a_r1970-01-01_00-00-00.log.bak are foreign;
-     a_r1999-01-01_00-00-00.log, a_r1x.log, a_r1970-01-01.log are not (member_files_td: what the model does with them).
+     infix from it, or an infix that the time-stamp filter (r%Y-%m-%d_%H-%M-%S as chrono parses it) does not accept - as a
+     plain file, as an archive, and with ".gz" removed.  Examples: a_rXYZ.log, a_r1.log, a_rCURRENT.log,
+     a_r1970-01-01_00-00-00.log.bak are foreign, and - since latest_timestamp_file lists with the time-stamp filter, too -
+     so are the names with a number infix or something like it: a_r00001.log, a_r1x.log, a_r1970-01-01.log,
+     a_r2030-01-01_00-00-00x.log (number_infix_foreign_td); a_r1999-01-01_00-00-00.log, a_r1970-1-1_0-0-0.log are not
+     (member_files_td: what the model does with them).
    - timestampsdirect_foreign_ignored: every criterion, every history OStart c :: ops ++ [OStop] of basic operations with a
      clock that does not run backwards (snapshots included), with or without append, any buffer capacity, use_utc either way.
    - timestampsdirect_stream_foreign: timestampsdirect_stream carries over.
@@ -317,13 +319,16 @@ Definition extd_ops : list op :=
 
 (* near misses of the family a_r<time stamp>[.restart-NNNN].log[.gz]: another suffix behind or instead of the suffix, no time
    stamp, too few bytes in the infix, another fixed part, no suffix, the rCURRENT file (and its archive) of the other
-   naming, the fixed part alone, a restart counter with too few digits, no "r" *)
+   naming, the fixed part alone, a restart counter with too few digits, no "r"; the files of the number namings (plain and
+   compressed), a number and a letter, a date without the time, a time stamp and a letter *)
 Definition extd_foreign : list (bytes * bytes) :=
   [ (bs "a_r1970-01-01_00-00-00.log.bak", bs "w"); (bs "a_rXYZ.log", bs "x"); (bs "b.log", bs "y");
     (bs "a_r1970-01-01_00-00-00.txt", bs "z"); (bs "a_r1.log", bs "u"); (bs "ax_r1970-01-01_00-00-00.log", bs "v");
     (bs "a_r1970-01-01_00-00-00", bs "t"); (bs "a_rCURRENT.log", bs "s"); (bs "a.log", bs "q");
     (bs "a_r1970-01-01_00-00-00.restart-00.log", bs "p"); (bs "a_1970-01-01_00-00-00.log", bs "o");
-    (bs "a_rCURRENT.log.gz", bs "n") ].
+    (bs "a_rCURRENT.log.gz", bs "n");
+    (bs "a_r1x.log", bs "1"); (bs "a_r00001.log", bs "2"); (bs "a_r2030-01-01_00-00-00x.log", bs "3");
+    (bs "a_r1970-01-01.log", bs "4"); (bs "a_r00001.log.gz", bs "5") ].
 
 Example foreign_hypotheses_td :
   tsdcfg extd_c (CSize 3) /\ tag_ok extd_c /\ Forall basic_op extd_ops /\ Forall tick_ok extd_ops
@@ -355,7 +360,10 @@ Example foreign_instance_dir_td :
   ex_snap (fst (run (sys0f 0 0 extd_foreign) (OStart extd_c :: extd_ops ++ [OStop])))
   = [ (bs "a.log", 0%N, bs "q");
       (bs "a_1970-01-01_00-00-00.log", 0%N, bs "o");
+      (bs "a_r00001.log", 0%N, bs "2");
+      (bs "a_r00001.log.gz", 0%N, bs "5");
       (bs "a_r1.log", 0%N, bs "u");
+      (bs "a_r1970-01-01.log", 0%N, bs "4");
       (bs "a_r1970-01-01_00-00-00", 0%N, bs "t");
       (bs "a_r1970-01-01_00-00-00.log", 0%N, bs "abcd");
       (bs "a_r1970-01-01_00-00-00.log.bak", 0%N, bs "w");
@@ -364,6 +372,8 @@ Example foreign_instance_dir_td :
       (bs "a_r1970-01-01_00-00-00.txt", 0%N, bs "z");
       (bs "a_r1970-01-01_00-00-01.log", 0%N, bs "ghij");
       (bs "a_r1970-01-01_00-00-01.restart-0000.log", 0%N, bs "k");
+      (bs "a_r1x.log", 0%N, bs "1");
+      (bs "a_r2030-01-01_00-00-00x.log", 0%N, bs "3");
       (bs "a_rCURRENT.log", 0%N, bs "s");
       (bs "a_rCURRENT.log.gz", 0%N, bs "n");
       (bs "a_rXYZ.log", 0%N, bs "x");
@@ -390,12 +400,16 @@ Proof. vm_compute. reflexivity. Qed.
        restart counters of that second go on from 0006;
    (3) an archive a_r1970-01-01_00-00-01.log.gz: the plain name of that second counts as taken, the files of that second
        start with restart-0000;
-   (4) a_r1x.log passes the number filter of latest_timestamp_file, but carries no time stamp: no effect in this history. *)
+   (4) names that chrono's lenient parser reads as a time stamp pass the test as well: a_r1970-1-1_0-0-0.log (no leading
+       zeros), "a_r 1970-01-01_00-00-00.log" (white space), a_r+1970-01-01_00-00-00.log (a sign).  latest_timestamp_file lists
+       them, cuts 20 bytes out of the name and does not get a time stamp out of those: no effect in this history.
+   All these names DO follow the pattern <fixed>_<infix of the naming>.<suffix>[.gz]: this is legitimate. *)
 Example member_files_td :
   let run_with n := ex_snap (fst (run (sys0f 0 0 [(bs n, bs "w")]) (OStart extd_c :: extd_ops ++ [OStop]))) in
   List.map (tsd_member extd_c) [bs "a_r1999-01-01_00-00-00.log"; bs "a_r1970-01-01_00-00-01.restart-0005.log";
-                                bs "a_r1970-01-01_00-00-01.log.gz"; bs "a_r1x.log"; bs "a_r1970-01-01.log";
-                                bs "a_r 1970-01-01_00-00-00.log"; bs "a_r1970-1-1_0-0-0.log"]
+                                bs "a_r1970-01-01_00-00-01.log.gz";
+                                bs "a_r 1970-01-01_00-00-00.log"; bs "a_r1970-1-1_0-0-0.log"; bs "a_r+1970-01-01_00-00-00.log";
+                                bs "a_r2024-02-29_23-59-58.log"]
   = [true; true; true; true; true; true; true]
   /\ run_with "a_r1999-01-01_00-00-00.log"
      = [ (bs "a_r1970-01-01_00-00-00.log", 0%N, bs "ef");
@@ -413,13 +427,42 @@ Example member_files_td :
          (bs "a_r1970-01-01_00-00-01.log.gz", 0%N, bs "w");
          (bs "a_r1970-01-01_00-00-01.restart-0000.log", 0%N, bs "ghij");
          (bs "a_r1970-01-01_00-00-01.restart-0001.log", 0%N, bs "k") ]
-  /\ run_with "a_r1x.log"
+  /\ run_with "a_r1970-1-1_0-0-0.log"
      = [ (bs "a_r1970-01-01_00-00-00.log", 0%N, bs "abcd");
          (bs "a_r1970-01-01_00-00-00.restart-0000.log", 0%N, bs "ef");
          (bs "a_r1970-01-01_00-00-01.log", 0%N, bs "ghij");
          (bs "a_r1970-01-01_00-00-01.restart-0000.log", 0%N, bs "k");
-         (bs "a_r1x.log", 0%N, bs "w") ].
+         (bs "a_r1970-1-1_0-0-0.log", 0%N, bs "w") ].
 Proof. vm_compute. repeat split. Qed.
+
+(* A NUMBER INFIX IS FOREIGN for this naming.  Before the repair of the code latest_timestamp_file listed the directory
+   with the (lax) number filter - "r", a digit, one more byte -, and the family test had to accept whatever that filter
+   accepted: a_r1x.log, a_r00001.log, a_r1970-01-01.log and a_r2030-01-01_00-00-00x.log were members (the former example
+   member_files_td), and the last one did harm: 20 bytes were cut out of its name, "r2030-01-01_00-00-00" was read as the
+   latest time stamp of the directory, and a writer with append continued (created) a_r2030-01-01_00-00-00.log.
+   NOW latest_timestamp_file lists with the time-stamp filter; every listing of this naming does, or asks for one given
+   time stamp (collision_free_infix: IFEq).  All these names are rejected by tsd_member, the run with such a file in the
+   directory - with append - is the run in the empty directory, the file stays what it was.  Nothing remains: the number
+   filter is not applied by this naming any more. *)
+Example number_infix_foreign_td :
+  let names := [bs "a_r1x.log"; bs "a_r00001.log"; bs "a_r00001.log.gz"; bs "a_r1.log"; bs "a_r1backup.log"; bs "a_r00001x.log";
+                bs "a_r1970-01-01.log"; bs "a_r2030-01-01_00-00-00x.log"; bs "a_r1970-01-01_00-00-00.restart-0000x.log"] in
+  List.map (tsd_member extd_c) names = List.map (fun _ => false) names
+  /\ Forall (fun n =>
+        List.map (strip_obs [n]) (snd (run (sys0f 0 0 [(n, bs "w")]) (OStart extd_c :: extd_ops ++ [OStop])))
+        = snd (run (sys0 0 0) (OStart extd_c :: extd_ops ++ [OStop]))
+        /\ file_of (wfs (s_w (fst (run (sys0f 0 0 [(n, bs "w")]) (OStart extd_c :: extd_ops ++ [OStop]))))) n
+           = Some (plain_file 0 (bs "w"))) names
+  /\ ex_snap (fst (run (sys0f 0 0 [(bs "a_r2030-01-01_00-00-00x.log", bs "w")]) (OStart extd_c :: extd_ops ++ [OStop])))
+     = [ (bs "a_r1970-01-01_00-00-00.log", 0%N, bs "abcd");
+         (bs "a_r1970-01-01_00-00-00.restart-0000.log", 0%N, bs "ef");
+         (bs "a_r1970-01-01_00-00-01.log", 0%N, bs "ghij");
+         (bs "a_r1970-01-01_00-00-01.restart-0000.log", 0%N, bs "k");
+         (bs "a_r2030-01-01_00-00-00x.log", 0%N, bs "w") ].
+Proof.
+  cbv zeta. split; [vm_compute; reflexivity|]. split; [|vm_compute; reflexivity].
+  repeat (apply Forall_cons; [vm_compute; split; reflexivity|]). apply Forall_nil.
+Qed.
 
 (* Why the third clause of tsd_member (the name without ".gz" is a plain member) is there.  collision_free_infix looks up
    <new name>.gz.  Unless the suffix of the family is "gz" this name is listed among the archives (tsd_member_simple).
